@@ -82,7 +82,7 @@ async def scenario(sc: dict) -> dict:
                 here = run.msg_params().get(e["id"], [])
                 counts.append({"id": e["id"], "t": e["t"], "present": len(here), "places": [h["place"] for h in here]})
             seen = len(ends)
-    ct = asyncio.ensure_future(counter())
+    ct = asyncio.ensure_future(counter() if not sc.get("no_counter") else asyncio.sleep(0))
     await run.run_worker(horizon_s=sc.get("horizon_s", 40.0), signals=False, tasks_limit=sc.get("tasks_limit", 1000))
     ct.cancel()
     await asyncio.gather(ct, return_exceptions=True)
@@ -103,9 +103,11 @@ def check(o: dict, model: Model, res: Result, label: str) -> None:
         j = jobs[jid]
         per = j["defer_by"]
         iter_T = None
+        iter_t0 = None
         for d in dl:
             if d["tried"] == 0:
                 iter_T = d["next"]      # scheduled time of the iteration that starts with this delivery
+                iter_t0 = d["t"]        # … and when it was actually delivered
             if len(d["calls"]) != 1 or not isinstance(d["calls"][0], list):
                 if len(d["calls"]) == 1 and str(d["calls"][0]) in ("ack", "nack"):
                     res.bad("impl", "a completed iteration of a recurring job got no successor (ack/nack instead of reschedule)",
@@ -125,7 +127,7 @@ def check(o: dict, model: Model, res: Result, label: str) -> None:
             nxt = succ[8]
             if T is not None and str(nxt) != "none":
                 reqs.append(sx([A("c06.spacingOk"), T, int(nxt), per]))
-                meta.append(("spacing", j, d, {"T": T, "next": int(nxt), "now": now, "ts": d["ts"]}))
+                meta.append(("spacing", j, d, {"T": T, "next": int(nxt), "now": now, "ts": d["ts"], "delivered": iter_t0}))
     answers = model.ask(reqs)
     res.extra["model_requests"] = res.extra.get("model_requests", 0) + len(answers)
     for (what, j, d, info), ans in zip(meta, answers):
@@ -142,7 +144,10 @@ def check(o: dict, model: Model, res: Result, label: str) -> None:
                 # the partial theorem covers now ≥ ts + per; below that the current code re-bases the grid
                 # F5 = exactly the cases outside the hypotheses of C06.spacing_partial
                 per = j["defer_by"]
-                trig = F5 if not (info["T"] <= info["ts"] + per and info["ts"] + per <= info["now"]) else None
+                # … an iteration that was delivered BEFORE its scheduled time is another matter (the broker's delay, not the grid)
+                tol = 1000 if sc.get("broker") == "rabbit" else 0
+                early = info["delivered"] is not None and info["delivered"] < info["T"] - tol
+                trig = F5 if not (info["T"] <= info["ts"] + per and info["ts"] + per <= info["now"]) and not early else None
                 res.bad("impl", "Pred.C06.spacingOk: next scheduled time less than one period after the slot that just ran",
                         case=case, observed=info, expected="T + period ≤ next", finding=trig)
     # exactly one message with the id after every iteration
@@ -197,6 +202,20 @@ def run(ctx) -> Result:
         o = vtime.run(lambda loop, s=sc: scenario(s), budget=300_000_000)
         check(o, model, res, f"recurring-{kind}-{seed}")
         res.dist[f"broker:{kind}"] += len(sc["jobs"])
+    # periods of more than a day (RabbitMQ only: its fake server is event-driven, nothing polls through the virtual days)
+    H, D = 3600 * S, 86400 * S
+    jobs = []
+    for i, (per, du) in enumerate(((25 * H, None), (2 * D, None), (7 * D, 3 * D + 12 * H), (D + 1500, D + 700_000))):
+        j = {"id": f"d{i}", "retries": 0, "defer_by": per, "timeout": 30 * S, "profile": "days", "pattern": ["ok"] * 6,
+             "plan": [{"k": "ret", "dur": 200_000 * (k + 1)} for k in range(6)], "store_result": False}
+        if du is not None:
+            j["defer_until"] = du
+        jobs.append(j)
+    sc = {"jobs": jobs, "converter": "basic", "policy": {"kind": "const", "us": 0}, "horizon_s": 16 * 86400.0, "tasks_limit": 1000,
+          "broker": "rabbit", "no_counter": True}
+    o = vtime.run(lambda loop, s=sc: scenario(s), budget=300_000_000)
+    check(o, model, res, f"recurring-rabbit-days-{seed}")
+    res.dist["broker:rabbit-day-scale"] += len(jobs)
     return res
 
 
